@@ -607,6 +607,12 @@ class Run:
         h = self.x.attr_setter(obj, attr)
         if h is not None:
             return h(self, obj, v, node)
+        if isinstance(obj, Conc) and isinstance(obj.obj, tuple) and obj.obj[0] == "obj_kind":
+            # an object of a dependency whose ASSUMED contract describes it as immutable (a function of its constructor
+            # arguments) is being mutated: the code leaves the protocol the stub was stated for
+            self.oblige(f"pre@{obj.obj[1]}#used_within_its_assumed_protocol", z3.BoolVal(False), kind="pre",
+                        note=f"attribute `{attr}` of a `{obj.obj[1]}` object is assigned at line {node.lineno}; the stub models this dependency as immutable")
+            raise PathEnd()
         raise EngineError(f"attribute store {attr} on {obj} at line {node.lineno}")
 
     def st_If(self, st, fr):
